@@ -517,8 +517,13 @@ def request_cases(draw):
             dec = 'Matching'        # pure-Python union-find takes seconds there
         if dec == 'RotatedSweepMatch' and cls == 'RotatedToric3DCode' and size[0] % 2 != size[1] % 2:
             dec = 'BP-OSD'         # C05 known finding
-        case.update(decoder=dec, max_bp_iter=draw(st.sampled_from([2, 20])) if dec != 'MBP' else 2,
-                    alpha=0.4, beta=0, err_rate=draw(st.sampled_from([0.0, 0.03, 0.1])))
+        # the sliders of the menu: max_bp_iter, alpha in [0, 2], beta in [0, 2]
+        # in steps of 0.01
+        case.update(decoder=dec, max_bp_iter=draw(st.sampled_from([2, 20])) if dec != 'MBP'
+                    else draw(st.sampled_from([2, 3])),
+                    alpha=draw(st.sampled_from([0.4, 0.25, 1.0, 0.75])),
+                    beta=draw(st.sampled_from([0, 0.25, 0.5, 1.5, 1, 0.01])),
+                    err_rate=draw(st.sampled_from([0.0, 0.03, 0.1])))
         if dec in ('BP-OSD', 'MBP') and names and draw(st.booleans()):
             case['deformation'] = draw(st.sampled_from(names))
     return case
